@@ -13,7 +13,7 @@ def run(ctx):
     far = tc.far_programs(rng, th)
     far += tc.refusal_programs(rng)       # refused adds in the middle of a history must not shift later handles
     far += tc.default_programs(ctx, rng, th, kinds=["PPTT"])   # Default-built cache nodes between the others
-    far += tc.related_programs(rng, th, kinds=kinds)           # duplicates, next ids, continuing ranges (a merged node shifts offsets)
+    far += tc.related_programs(rng, th, kinds=kinds, ctx=ctx)           # duplicates, next ids, continuing ranges (a merged node shifts offsets)
     programs = progs + rnd + far
     ctx.samples = tc.sample(progs, 2) + tc.sample(rnd, 1)
     ctx.distinct = tc.distinct(programs)
